@@ -612,13 +612,15 @@ pub fn run(out: &mut Out, seed: u64, thorough: bool, which: &str, args: &[String
     };
     let w = World { layer: system_layer(&syls), abbr };
     let all = configs();
-    // `all` = the registered family.  quick: the six `lean` worlds of threshold 1 (3 engines x 2 option profiles; each closes
-    // in < 1 000 states); thorough: `lean` for every engine x threshold x option profile, and for the chewing engine at
-    // threshold 1 also `core`, `hl`, `sym`, `mode` and the work package's `full` alphabet (with Tab: infinite, never
-    // closes).  Any single configuration of `configs()` can be named instead.
+    // `all` = the registered family.  quick: four `lean` worlds of threshold 1 (they close in < 1 000 states each, the simple
+    // engine's is larger) + one `sym` and one `mode` world explored to a small budget (symbol lists with pages, CapsLock /
+    // Shift+Space under open lists: not closed, a systematic breadth-first sample); thorough: `lean` for every engine x
+    // threshold x option profile, and for the chewing engine at threshold 1 also `core`, `hl`, `sym`, `mode` and the work
+    // package's `full` alphabet (with Tab: infinite, never closes).  Any configuration of `configs()` can be named instead.
+    const QUICK: [&str; 6] = ["chewing-t1-dflt-lean", "chewing-t1-alt-lean", "fuzzy-t1-alt-lean", "simple-t1-dflt-lean", "chewing-t1-alt-sym", "chewing-t1-dflt-mode"];
     let in_all = |c: &Config| {
         let t1 = c.opts.auto_commit_threshold == 1;
-        if thorough { c.id.ends_with("-lean") || (t1 && c.engine == 1 && !c.id.ends_with("-tab")) } else { t1 && c.id.ends_with("-lean") }
+        if thorough { c.id.ends_with("-lean") || (t1 && c.engine == 1 && !c.id.ends_with("-tab")) } else { QUICK.contains(&c.id.as_str()) }
     };
     let chosen: Vec<Config> = all.iter().filter(|c| if which == "all" { in_all(c) } else { c.id == which }).cloned().collect();
     if chosen.is_empty() {
@@ -626,8 +628,8 @@ pub fn run(out: &mut Out, seed: u64, thorough: bool, which: &str, args: &[String
         std::process::exit(2);
     }
     let arg = |name: &str| -> Option<u64> { args.iter().position(|a| a == name).and_then(|i| args.get(i + 1)).and_then(|v| v.parse().ok()) };
-    // budget of transitions per configuration (quick: 45 000, ≈ 40 s for the six worlds + ≈ 20 s model driver; thorough: 10^6)
-    let per_cfg = arg("--bfs-transitions").unwrap_or(if thorough { 1_000_000 } else { 45_000 });
+    // budget of transitions per configuration (quick: 70 000 - the largest quick `lean` world, the simple engine's, closes at 67 146 -, 20 000 for the `sym` / `mode` worlds; thorough: 10^6)
+    let per_cfg = arg("--bfs-transitions").unwrap_or(if thorough { 1_000_000 } else { 70_000 });
     let deadline_s = arg("--bfs-seconds");
     let mut ex = Explorer { out, seed, c17: crate::oracle_c17::Stats::new(), sid: 0, replayed_steps: 0, rebuilds: 0, panics: 0, getter_fails: 0 };
     let mut reports = vec![];
@@ -636,7 +638,9 @@ pub fn run(out: &mut Out, seed: u64, thorough: bool, which: &str, args: &[String
         ex.out.stat(&format!("bfs.{}.alphabet", cfg.id), names.join(","));
         ex.out.stat(&format!("bfs.{}.options", cfg.id), crate::opts_s(&cfg.opts).replace(' ', "_"));
         let deadline = deadline_s.map(|s| Instant::now() + std::time::Duration::from_secs(s));
-        reports.push(explore(&mut ex, &w, cfg, per_cfg, deadline));
+        // quick tier: the worlds that cannot close within the budget anyway get a smaller one
+        let cap = if !thorough && which == "all" && !cfg.id.ends_with("-lean") { per_cfg.min(20_000) } else { per_cfg };
+        reports.push(explore(&mut ex, &w, cfg, cap, deadline));
     }
     let closed: Vec<&str> = reports.iter().filter(|r| r.closed).map(|r| r.id.as_str()).collect();
     let open: Vec<&str> = reports.iter().filter(|r| !r.closed).map(|r| r.id.as_str()).collect();
